@@ -227,7 +227,11 @@ def runtime_namespace(extra=None):
             d = o._d if isinstance(o, TotalView) else o
             return all(set(self.f(k)) == set(v) for k, v in d.items()) and all(set(self.f(k)) == set(d.get(k, ())) for k in self.support)
 
-    ns.update(dominates=dominates, dgfp=dgfp, tmap=LazyMap, identical=lambda a, b: a == b)
+    def fwd_rank(seq, be, p):
+        return sum(1 for t in list(seq)[:p] if t not in be)
+
+    ns.update(fwd_rank=fwd_rank)
+    ns.update(dominates=dominates, dgfp=dgfp, tmap=LazyMap, identical=lambda a, b: a == b, same_value=lambda a, b: a == b)
     ns.update(block_name=block_name, region_name=region_name, var_name=var_name, gen_index=gen_index, is_generated=is_generated)
     ns.update(reach1=reach1, implies=implies, distinct=distinct, is_sorted=is_sorted, updated=updated, removed=removed,
               without=without, card=card, get=get, same_elements=same_elements, replace=dataclasses.replace)
